@@ -920,6 +920,43 @@ Section ToposortProofs.
       repeat split; [exact Hin1 | exact Hc1 | left; reflexivity | exists (n :: e1); subst; reflexivity].
   Qed.
 
+  (* nothing is listed twice: a node is pushed only when it is not listed yet, and while its dependencies are visited it is
+     `visiting`, so a visit that comes back to it is a cycle (None), not a second push *)
+  Lemma visit_nodup fuel : forall visiting order n order',
+    NoDup order -> visit dag fuel visiting order n = Some order' ->
+    NoDup order' /\ exists ext, order' = ext ++ order /\ forall x, In x ext -> ~ In x visiting.
+  Proof.
+    induction fuel as [|fuel IH]; intros visiting order n order' Hnd; cbn [visit]; [discriminate|].
+    destruct (existsb (Nat.eqb n) order) eqn:Ed.
+    - intro H; injection H as <-. split; [exact Hnd|]. exists []. split; [reflexivity | intros ? []].
+    - destruct (existsb (Nat.eqb n) visiting) eqn:Ev; [discriminate|].
+      set (go := visit_all (visit dag fuel (n :: visiting))).
+      assert (forall ms o o', NoDup o -> go ms o = Some o' ->
+                NoDup o' /\ exists ext, o' = ext ++ o /\ forall x, In x ext -> ~ In x (n :: visiting)) as Hgo.
+      { induction ms as [|m ms IHms]; intros o o' Ho; unfold go; cbn [visit_all]; fold go.
+        - intro H; injection H as <-. split; [exact Ho|]. exists []. split; [reflexivity | intros ? []].
+        - destruct (visit dag fuel (n :: visiting) o m) as [o1|] eqn:V; [|discriminate].
+          destruct (IH _ _ _ _ Ho V) as [Hn1 [e1 [E1 X1]]].
+          intro G. destruct (IHms _ _ Hn1 G) as [Hn2 [e2 [E2 X2]]].
+          split; [exact Hn2|]. exists (e2 ++ e1). split; [subst; rewrite app_assoc; reflexivity|].
+          intros x Hx. apply in_app_or in Hx as [Hx|Hx]; [apply X2 | apply X1]; exact Hx. }
+      destruct (go (dag n) order) as [o1|] eqn:G; [|discriminate].
+      intro H; injection H as <-. destruct (Hgo _ _ _ Hnd G) as [Hn1 [e1 [E1 X1]]].
+      split.
+      + constructor; [|exact Hn1]. subst o1. intro Hin. apply in_app_or in Hin as [Hin|Hin].
+        * apply (X1 n Hin). left. reflexivity.
+        * assert (existsb (Nat.eqb n) order = true) as C by (apply mem_nat_In; exact Hin). congruence.
+      + exists (n :: e1). split; [subst; reflexivity|].
+        intros x [<-|Hx]; [intro C; apply mem_nat_In in C; congruence | intro C; apply (X1 x Hx); right; exact C].
+  Qed.
+
+  Theorem toposort_nodup fuel start l : toposort dag fuel start = Some l -> NoDup l.
+  Proof.
+    unfold toposort. destruct (visit dag fuel [] [] start) as [o|] eqn:V; [|discriminate].
+    intro H; injection H as <-. destruct (visit_nodup fuel [] [] start o (NoDup_nil _) V) as [Hn _].
+    apply NoDup_rev. exact Hn.
+  Qed.
+
   Lemma closed_split order : closed order -> forall l1 n l2, order = l1 ++ n :: l2 -> incl (dag n) l2.
   Proof.
     induction order as [|a order IH]; intros Hc l1 n l2 E; [destruct l1; discriminate|].
